@@ -1,6 +1,6 @@
 (* C02 model driver: same case lines as harness/C02_service.cpp; only the S:/s: steps matter to the model
    (HTTP: the list of segments; SCGI/FastCGI: their concatenation) *)
-let app_name = function AppSync -> "s" | AppAsync -> "a" | AppUp -> "u" | AppUpm -> "m" | AppProbe -> "p"
+let app_name = function AppSync -> "s" | AppAsync -> "a" | AppUp -> "u" | AppUpm -> "m" | AppProbe -> "p" | AppUpA -> "x" | AppUpT -> "t"
 let item_str = function
   | IOk a -> "OK:" ^ app_name a
   | IStatus c -> "ST" ^ string_of_int (int_of_z c)
@@ -13,8 +13,8 @@ let item_str = function
   | IFuel -> "FUEL"
 let show (l, c) =
   String.concat " " (List.map item_str l) ^
-  Printf.sprintf " | calls=%d,%d,%d,%d,%d,%d" (int_of_z c.c_sync) (int_of_z c.c_async) (int_of_z c.c_setup)
-    (int_of_z c.c_main) (int_of_z c.c_err) (int_of_z c.c_end)
+  Printf.sprintf " | calls=%d,%d,%d,%d,%d,%d,%d" (int_of_z c.c_sync) (int_of_z c.c_async) (int_of_z c.c_setup)
+    (int_of_z c.c_main) (int_of_z c.c_err) (int_of_z c.c_end) (int_of_z c.c_abort)
 let segs toks =
   List.filter_map (fun t ->
     if String.length t >= 2 && (t.[0] = 'S' || t.[0] = 's') && t.[1] = ':' then
